@@ -682,4 +682,136 @@ theorem goesUp_ofComps {cs : List Bytes} (h : CleanComps false cs) :
                 exfalso; apply has; rw [← e.2.2.1]; simp
       · intro e; right; subst e; exact ⟨joinWith slash (b :: bs), rfl⟩
 
+
+/-! ## Split -/
+
+theorem take_succ_snoc {α : Type} (cs : List α) (k : Nat) (hk : k < cs.length) :
+    cs.take (k + 1) = cs.take k ++ [cs[k]] := by
+  rw [List.take_add_one, List.getElem?_eq_getElem hk]; rfl
+
+theorem dir_take {cs : List Bytes} (h : CleanComps false cs) (k : Nat) (hk : k < cs.length) :
+    (ofComps (cs.take (k + 1))).dir = ofComps (cs.take k) := by
+  rw [take_succ_snoc cs k hk]
+  apply dir_snoc
+  rw [← take_succ_snoc cs k hk]
+  have : cs = cs.take (k + 1) ++ cs.drop (k + 1) := (List.take_append_drop _ _).symm
+  rw [this] at h
+  exact cleanComps_prefix h
+
+theorem dirChain_take {cs : List Bytes} (h : CleanComps false cs) :
+    ∀ (n k : Nat) (acc : List RelPath), n ≤ k → k ≤ cs.length →
+      RelPath.dirChain n (ofComps (cs.take k)) acc =
+        (List.range' (k - n) n).map (fun j => ofComps (cs.take j)) ++ acc := by
+  intro n
+  induction n with
+  | zero => intro k acc _ _; simp [RelPath.dirChain]
+  | succ n ih =>
+    intro k acc hn hk
+    obtain ⟨k', rfl⟩ : ∃ k', k = k' + 1 := ⟨k - 1, by omega⟩
+    simp only [RelPath.dirChain]
+    rw [dir_take h k' (by omega), ih k' _ (by omega) (by omega)]
+    have e1 : k' + 1 - (n + 1) = k' - n := by omega
+    rw [e1, List.range'_concat (s := k' - n) (n := n)]
+    have e2 : k' - n + n = k' := by omega
+    simp [e2]
+
+theorem count_joinWith : ∀ (cs : List Bytes), cs ≠ [] → (∀ x ∈ cs, slash ∉ x) →
+    RelPath.countSlash (joinWith slash cs) + 1 = cs.length
+  | [], h, _ => absurd rfl h
+  | [a], _, hn => by
+    have := hn a (by simp)
+    simp [RelPath.countSlash, joinWith, List.count_eq_zero.2 this]
+  | a :: b :: rest, _, hn => by
+    have ih := count_joinWith (b :: rest) (by simp) (fun x hx => hn x (by simp [hx]))
+    have ha := hn a (by simp)
+    simp only [RelPath.countSlash] at ih ⊢
+    simp only [joinWith, List.count_append, List.count_cons_self, List.count_eq_zero.2 ha, List.length_cons] at ih ⊢
+    omega
+
+/-- **Split yields exactly the chain of ancestors**: the root, then every proper prefix, then the path itself. -/
+theorem split_ofComps {cs : List Bytes} (h : CleanComps false cs) :
+    (ofComps cs).split = (List.range (cs.length + 1)).map (fun k => ofComps (cs.take k)) := by
+  by_cases h0 : cs = []
+  · subst h0; simp [RelPath.split, ofComps]
+  · have hf := render_facts h h0
+    have hcnt := count_joinWith cs h0 (fun x hx => (cleanComps_mem h x hx).2.2)
+    obtain ⟨init, l, rfl⟩ : ∃ init l, cs = init ++ [l] :=
+      ⟨cs.dropLast, cs.getLast h0, (List.dropLast_concat_getLast h0).symm⟩
+    unfold RelPath.split
+    rw [ofComps_path h0, ofComps_lastSplit h0]
+    simp only [hf.1, if_false]
+    rcases render_snoc h with ⟨hi, hj, hl⟩ | ⟨hi, hj, hl⟩
+    · subst hi
+      simp only [List.nil_append] at hj ⊢
+      simp [hj, hl, ofComps, List.range_succ]
+    · rw [hl]
+      have hnn : ¬ (((joinWith slash init).length : Int) = -1) := by omega
+      simp only [hnn, if_false]
+      rw [hcnt]
+      have := dirChain_take h (init ++ [l]).length (init ++ [l]).length [ofComps (init ++ [l])] (Nat.le_refl _) (Nat.le_refl _)
+      rw [List.take_length] at this
+      rw [this, List.range_succ, List.map_append]
+      have e3 : (init ++ [l]).length = init.length + 1 := by simp
+      have e4 : List.take (init.length + 1) (init ++ [l]) = init ++ [l] := by
+        rw [← e3]; exact List.take_length
+      simp [List.range_eq_range', e4]
+
+
+/-! ## printing, then concatenating, then parsing -/
+
+theorem foldl_skip (r : Bool) (pre : List Bytes) (hp : ∀ c ∈ pre, c = [] ∨ c = [dot]) :
+    ∀ st, pre.foldl (cleanStep r) st = st := by
+  induction pre with
+  | nil => intro st; rfl
+  | cons c cs ih =>
+    intro st
+    simp only [List.foldl_cons, cleanStep_skip r st c (hp c (by simp))]
+    exact ih (fun x hx => hp x (by simp [hx])) st
+
+theorem cleanComps_skip_mid (r : Bool) (x pre y : List Bytes) (hp : ∀ c ∈ pre, c = [] ∨ c = [dot]) :
+    cleanComps r (x ++ pre ++ y) = cleanComps r (x ++ y) := by
+  simp [cleanComps, List.foldl_append, foldl_skip r pre hp]
+
+/-- what `String()` splits into: the components, possibly behind a `.` -/
+theorem splitOn_str {a : List Bytes} (h : CleanComps false a) :
+    ∃ pre, (∀ c ∈ pre, c = [] ∨ c = [dot]) ∧ splitOn slash (ofComps a).str = pre ++ a := by
+  by_cases h0 : a = []
+  · subst h0
+    exact ⟨[[dot]], by simp, by simp [ofComps, RelPath.str, splitOn, dot, slash]⟩
+  · have hsp := splitOn_joinWith slash a h0 (fun x hx => (cleanComps_mem h x hx).2.2)
+    have hp : (ofComps a).path = joinWith slash a := ofComps_path h0
+    rcases (ofComps a).str_cases' with ⟨e, _⟩ | ⟨_, e⟩ | ⟨_, e⟩
+    · exact absurd ((ofComps_path_nil h).1 e) h0
+    · exact ⟨[], by simp, by rw [e, hp, hsp]; rfl⟩
+    · refine ⟨[[dot]], by simp, ?_⟩
+      rw [e, hp]
+      have : dot :: slash :: joinWith slash a = [dot] ++ slash :: joinWith slash a := rfl
+      rw [this, splitOn_append_sep, hsp, splitOn_nosep slash [dot] (by simp [dot, slash])]
+
+theorem str_head_not_slash {a : List Bytes} (h : CleanComps false a) : (ofComps a).str.head? ≠ some slash := by
+  by_cases h0 : a = []
+  · subst h0; simp [ofComps, RelPath.str, dot, slash]
+  · have hp : (ofComps a).path = joinWith slash a := ofComps_path h0
+    rcases (ofComps a).str_cases' with ⟨e, _⟩ | ⟨_, e⟩ | ⟨_, e⟩
+    · exact absurd ((ofComps_path_nil h).1 e) h0
+    · rw [e, hp]; exact (render_facts h h0).2.2.1
+    · rw [e]; simp [dot, slash]
+
+/-- **Join = print both, concatenate with `/`, parse** -/
+theorem join_eq_parse_concat {a b : List Bytes} (ha : CleanComps false a) (hb : CleanComps false b) :
+    mustRel ((ofComps a).str ++ slash :: (ofComps b).str) = some ((ofComps a).join (ofComps b)) := by
+  have hh : ((ofComps a).str ++ slash :: (ofComps b).str).head? ≠ some slash := by
+    have := str_head_not_slash ha
+    cases hs : (ofComps a).str with
+    | nil => simp [RelPath.str] at hs; split at hs <;> try split at hs <;> try split at hs
+             all_goals simp_all
+    | cons x xs => rw [hs] at this; simpa using this
+  rw [mustRel_eq _ hh, splitOn_append_sep, join_ofComps ha hb]
+  obtain ⟨pa, hpa, ea⟩ := splitOn_str ha
+  obtain ⟨pb, hpb, eb⟩ := splitOn_str hb
+  rw [ea, eb]
+  have e1 : pa ++ a ++ (pb ++ b) = ([] ++ pa ++ (a ++ (pb ++ b))) := by simp
+  have e2 : a ++ (pb ++ b) = a ++ pb ++ b := by simp
+  rw [e1, cleanComps_skip_mid false [] pa _ hpa, List.nil_append, e2, cleanComps_skip_mid false a pb b hpb]
+
 end Rio
